@@ -15,7 +15,7 @@ pub fn def() -> PropDef {
         streams,
         run,
         floors,
-        rule: "constructors: 4 kinds x all 4 boolean pairs; the accessor named after the first (second) constructor parameter must return the first (second) argument, and the word must have exactly the corresponding bits (6 / 7) set. Wire words: per kind, all single-bit, two-bit and complement patterns plus random words (thorough: a dense sweep of 2^26 words per kind covering every value of the low 16 bits x 1024 high patterns); decode through the per-type decoder and through a control message, re-encode, compare all 32 bits, and check each accessor against its own bit only. Distinct = distinct (kind, word); non-trivial = all.",
+        rule: "constructors: 4 kinds x all 4 boolean pairs; the accessor named after the first (second) constructor parameter must return the first (second) argument, and the word must have exactly the corresponding bits (6 / 7) set. Wire words: per kind, all single-bit, two-bit and complement patterns plus random words (every value of the low 16 bits over random high halves; thorough: ALL 2^32 words of every kind in a tight loop, blocks of 2^20); decode through the per-type decoder and through a control message, re-encode, compare all 32 bits, and check each accessor against its own bit only. Distinct = distinct (kind, word); non-trivial = all.",
     }
 }
 
@@ -25,6 +25,8 @@ fn streams(t: Tier) -> Vec<StreamDef> {
         st("patterns", t.n(4 * 562, 4 * 562, 60, 4 * 562), t != Tier::Miri),
         st("random_words", t.n(400_000, 40_000_000, 200, 100_000), false),
         st("low16_sweep", t.n(4 * 65536, 4 * 65536, 0, 4 * 65536), true),
+        // thorough only: every one of the 2^32 words of every kind, in blocks of 2^20
+        st("full_sweep", t.n(0, 4 * 4096, 0, 0), true),
     ]
 }
 
@@ -32,7 +34,13 @@ fn floors(t: Tier) -> Vec<(String, u64)> {
     if t == Tier::Miri {
         return vec![("constructor.checked".into(), 16)];
     }
-    vec![("constructor.checked".into(), 16), ("word.roundtrip".into(), 300_000), ("accessor.first.true".into(), 10_000), ("accessor.first.false".into(), 10_000), ("accessor.second.true".into(), 10_000), ("accessor.second.false".into(), 10_000), ("via_message".into(), 1000)]
+    let mut extra: Vec<(String, u64)> = vec![];
+    if t == Tier::Thorough {
+        extra.push(("full_sweep.words".into(), 4 * (1u64 << 32)));
+    }
+    let mut f: Vec<(String, u64)> = vec![("constructor.checked".into(), 16), ("word.roundtrip".into(), 300_000), ("accessor.first.true".into(), 10_000), ("accessor.first.false".into(), 10_000), ("accessor.second.true".into(), 10_000), ("accessor.second.false".into(), 10_000), ("via_message".into(), 1000)];
+    f.extend(extra);
+    f
 }
 
 const KINDS: [(&str, u16, &str, &str); 4] = [
@@ -141,6 +149,50 @@ fn judge_word(ctx: &mut Ctx, kind: usize, w: u32, via_message: bool) {
     }
 }
 
+/// Tight loop over `n` consecutive words starting at `base`: decode through the per-type decoder,
+/// check both accessors against bits 6 / 7 and re-encode into a reused writer. Returns the first
+/// word that misbehaves (it is then re-judged by `judge_word` for a full report).
+fn sweep_block(kind: usize, base: u32, n: u32) -> Option<u32> {
+    use rl2tp::common::{VecWriter, Writer};
+    let attr = KINDS[kind].1 as u8;
+    let mut wr = VecWriter::new();
+    let mut w = base;
+    for _ in 0..n {
+        let b = w.to_be_bytes();
+        let mut r = SliceReader::from(&b);
+        let (a6, a7, avp) = match kind {
+            0 => match t::FramingCapabilities::try_read(&mut r) {
+                Ok(v) => (v.is_async_framing_supported(), v.is_sync_framing_supported(), AVP::FramingCapabilities(v)),
+                Err(_) => return Some(w),
+            },
+            1 => match t::BearerCapabilities::try_read(&mut r) {
+                Ok(v) => (v.is_analog_access_supported(), v.is_digital_access_supported(), AVP::BearerCapabilities(v)),
+                Err(_) => return Some(w),
+            },
+            2 => match t::BearerType::try_read(&mut r) {
+                Ok(v) => (v.is_analog_request(), v.is_digital_request(), AVP::BearerType(v)),
+                Err(_) => return Some(w),
+            },
+            _ => match t::FramingType::try_read(&mut r) {
+                Ok(v) => (v.is_analog_request(), v.is_digital_request(), AVP::FramingType(v)),
+                Err(_) => return Some(w),
+            },
+        };
+        if a6 != ((w >> 6) & 1 == 1) || a7 != ((w >> 7) & 1 == 1) {
+            return Some(w);
+        }
+        wr.data.clear();
+        avp.write(&mut wr);
+        let d = &wr.data;
+        if d.len() != 10 || d[0] != 0x01 || d[1] != 10 || d[2] != 0 || d[3] != 0 || d[4] != 0 || d[5] != attr || d[6..10] != b {
+            return Some(w);
+        }
+        let _ = wr.len();
+        w = w.wrapping_add(1);
+    }
+    None
+}
+
 fn pattern(i: u64) -> u32 {
     // 32 single bits, 496 pairs, 32 complements of single bits, 0, !0
     let i = i as usize;
@@ -209,6 +261,29 @@ fn run(ctx: &mut Ctx) {
             judge_word(ctx, kind, w, via);
             if ctx.idx % 50_000 == 0 {
                 ctx.rep.sample(|| J::obj(vec![("kind", J::s(KINDS[kind].0)), ("wire_word", J::s(format!("{:#010x}", w)))]));
+            }
+        }
+        "full_sweep" => {
+            let kind = (ctx.idx % 4) as usize;
+            let block = (ctx.idx / 4) as u32; // 0..4096
+            let base = block << 20;
+            ctx.rep.case(&[b'S', kind as u8, (block >> 8) as u8, block as u8], true);
+            let res = crate::monitor::panic::catch(|| sweep_block(kind, base, 1 << 20));
+            match res {
+                crate::monitor::panic::Ended::Returned(None) => {
+                    ctx.rep.bucket_n("full_sweep.words", 1 << 20);
+                    ctx.rep.bucket("full_sweep.blocks");
+                    // the words of a block count as evaluations (each was decoded, queried and re-encoded)
+                    ctx.rep.evaluations += (1 << 20) - 1;
+                }
+                crate::monitor::panic::Ended::Returned(Some(w)) => judge_word(ctx, kind, w, false),
+                crate::monitor::panic::Ended::Panicked(p) => {
+                    ctx.violate(format!("C17:{}:sweep-panic:{}", KINDS[kind].0, p.class()), format!("panic while sweeping words {:#010x}..: {}", base, p.message), J::obj(vec![("kind", J::s(KINDS[kind].0)), ("block_base", J::s(format!("{:#010x}", base)))]));
+                }
+                _ => unreachable!(),
+            }
+            if ctx.idx % 4000 == 0 {
+                ctx.rep.sample(|| J::obj(vec![("kind", J::s(KINDS[kind].0)), ("swept_words", J::s(format!("{:#010x}..={:#010x}", base, base | 0xfffff)))]));
             }
         }
         "low16_sweep" => {
